@@ -68,6 +68,10 @@ def corner_override(m, k, salt, empty_ok=True, single_ok=True, rhf_unrestricted_
         m["trial"] = "rhf"
         m["nelec"] = r.choice([[1, 1], [2, 2], [2, 2]])
         m["corner"] = "rhf_trial_unrestricted_walkers"
+    elif rhf_unrestricted_ok and m.get("wt") == "restricted" and m.get("trial") == "uhf" and 0.30 <= u < 0.70:
+        # restricted walkers with the trials that only define unrestricted routines (base-class column split)
+        m["trial"] = r.choice(["noci", "ghf"])
+        m["corner"] = "noci_or_ghf_trial_restricted_walkers"
     return m
 
 
@@ -147,6 +151,45 @@ def make_trial(kind, norb, nelec, ham_data, rs, mix=0.0, n_batch=1, ndets=2):
         ci = np.array([1.0] + [0.3 * rs.uniform(0.5, 1.0) for _ in range(ndets - 1)])
         trial = wavefunctions.noci(norb, nelec, ndets, n_batch=n_batch)
         wave_data["ci_coeffs_dets"] = [jnp.array(ci), [jnp.array(np.array(ups)), jnp.array(np.array(dns))]]
+    elif kind == "cisd":
+        # hand-coded CISD trial on a closed-shell reference made of the first nocc basis orbitals (the library
+        # works in the MO basis); spatial amplitudes with the pair symmetry c[i,a,j,b] = c[j,b,i,a]
+        nocc, nv = nelec[0], norb - nelec[0]
+        ci1 = 0.15 * rs.normal(size=(nocc, nv))
+        c2 = 0.15 * rs.normal(size=(nocc, nv, nocc, nv))
+        ci2 = 0.5 * (c2 + c2.transpose(2, 3, 0, 1))
+        trial = wavefunctions.cisd(norb, nelec, n_batch=n_batch)
+        wave_data["ci1"], wave_data["ci2"] = jnp.array(ci1), jnp.array(ci2)
+        p = np.diag([1.0] * nocc + [0.0] * nv)
+        wave_data["rdm1"] = jnp.array(np.array([p, p]))
+        return trial, wave_data
+    elif kind == "ucisd":
+        # UCISD: alpha reference = first n_up basis orbitals, beta reference = first n_dn columns of an orthogonal
+        # matrix B (beta MOs in the alpha-MO basis); same-spin doubles antisymmetric, all with pair symmetry
+        import scipy.linalg as sla
+
+        na, nb = nelec
+        va, vb = norb - na, norb - nb
+        k = rs.normal(size=(norb, norb))
+        B = sla.expm(0.15 * (k - k.T))
+
+        def same_spin(no, nv):
+            c = 0.15 * rs.normal(size=(no, nv, no, nv))
+            c = c - c.transpose(2, 1, 0, 3)  # i <-> j
+            c = c - c.transpose(0, 3, 2, 1)  # a <-> b
+            return 0.25 * c
+
+        trial = wavefunctions.ucisd(norb, nelec, n_batch=n_batch)
+        wave_data["ci1A"] = jnp.array(0.15 * rs.normal(size=(na, va)))
+        wave_data["ci1B"] = jnp.array(0.15 * rs.normal(size=(nb, vb)))
+        wave_data["ci2AA"] = jnp.array(same_spin(na, va))
+        wave_data["ci2BB"] = jnp.array(same_spin(nb, vb))
+        wave_data["ci2AB"] = jnp.array(0.15 * rs.normal(size=(na, va, nb, vb)))
+        wave_data["mo_coeff"] = [jnp.eye(norb), jnp.array(B)]
+        pa = np.diag([1.0] * na + [0.0] * va)
+        pb = B[:, :nb] @ B[:, :nb].T
+        wave_data["rdm1"] = jnp.array(np.array([pa, pb]))
+        return trial, wave_data
     else:
         raise ValueError(kind)
     wave_data["rdm1"] = jnp.array(trial.get_rdm1(wave_data))
